@@ -54,7 +54,7 @@ package util
 // CleanUTF8(s): s up to and including its last ASCII byte, followed by the valid remainder of the tail (C09: "cut at a
 // valid UTF-8 boundary"); never longer than s; written in place
 // cleanfrom: ghost - the end of the last ASCII byte (where the cleaned tail begins)
-//@ ghost var cleanfrom int
+//@ ghost scratch var cleanfrom int
 //@ func CleanUTF8(s []byte) []byte
 //@   flag counted
 //@   modifies s[:], cleanfrom
